@@ -91,6 +91,25 @@ def generate(g, tier):
         cases.append(dict(op='compile_file', file='proj/main.txt', files=files,
                           meta=dict(family='via-function', exp=['cycle', None], names=None, chainfiles=['proj/main.txt', 'proj/lib.txt', 'proj/helper.txt'])))
         break
+    # cycles that depend on the history of the compilation: the closing START line has already run harmlessly once (through a
+    # function called again from the file it imported, or guarded by a condition that changes), so nothing about the line itself
+    # says it is cyclic — only the files live on the pile do
+    for kw in ('START', 'STARTCODE', 'STARTENV'):
+        for d in ('proj', 'proj/sub'):
+            P = lambda n: f'{d}/{n}.txt'
+            files = {P('main'): 'START util\nRUN load\nSTRING end', P('util'): f'FUNC load\n    {kw} data\nSTRING util', P('data'): 'STRING data\nRUN load'}
+            cases.append(dict(op='compile_file', file=P('main'), files=files,
+                              meta=dict(family='history-func', exp=['cycle', None], names=None, chainfiles=[P('main'), P('util'), P('data'), P('util')])))
+            files = {P('main'): f'VAR mode 1\n{kw} b\nVAR mode 2\n{kw} a\nSTRING end', P('a'): f'STRING in-a\nIF mode == 2\n    VAR mode 3\n    {kw} b', P('b'): f'STRING in-b\n{kw} a'}
+            cases.append(dict(op='compile_file', file=P('main'), files=files,
+                              meta=dict(family='history-cond', exp=['cycle', None], names=None, chainfiles=[P('main'), P('a'), P('b')])))
+            files = {P('main'): f'REPEAT i,3\n    VAR mode i\n    {kw} a\nSTRING end', P('a'): f'STRING in-a\nIF mode == 2\n    {kw} b', P('b'): f'STRING in-b\n{kw} a'}
+            cases.append(dict(op='compile_file', file=P('main'), files=files,
+                              meta=dict(family='history-loop', exp=['cycle', None], names=None, chainfiles=[P('main'), P('a'), P('b')])))
+            # the same line run twice without ever closing a cycle is fine
+            files = {P('main'): f'REPEAT 2\n    START a\nSTART a\nSTRING end', P('a'): 'START b\nSTRING in-a', P('b'): 'STRING in-b'}
+            cases.append(dict(op='compile_file', file=P('main'), files=files,
+                              meta=dict(family='history-none', exp=['ok', ['STRING in-b', 'STRING in-a'] * 3 + ['STRING end']], names=None)))
     return cases
 
 
